@@ -45,6 +45,13 @@ def _check_single(ctx, k, s, dense=True):
     ctx.require(op2.F2.tolist() == f2_ref.tolist(), 'PauliOperator.from_str')
     op3 = nq.gate.PauliOperator.from_index(idx, n)
     ctx.require(op3.F2.tolist() == ref.pauli_to_F2((0, s)), 'PauliOperator.from_index')
+    # the caller owns what a conversion returned: editing it (e.g. flipping a phase bit to build -P) must not change later conversions
+    FR = 'a second conversion is not affected by editing the array returned by the first'
+    ctx.fresh(lambda: nq.gate.pauli_index_to_F2(idx, n, with_sign=True), FR + ' (index_to_F2)')
+    ctx.fresh(lambda: nq.gate.pauli_index_to_F2(idx, n, with_sign=False), FR + ' (index_to_F2 nosign)')
+    ctx.fresh(lambda: nq.gate.pauli_str_to_F2(s, sign), FR + ' (str_to_F2)')
+    ctx.fresh(lambda: nq.gate.PauliOperator.from_index(idx, n).F2, FR + ' (from_index)')
+    ctx.fresh(lambda: nq.gate.PauliOperator.from_str(s, sign).F2, FR + ' (from_str)')
     inv = op.inverse()
     ctx.require(ref.pauli_from_F2(inv.F2) == ref.pauli_inv((k, s)), 'inverse', f'{inv.F2.tolist()}')
     ctx.require(op.F2.tolist() == f2_ref.tolist(), 'inverse mutates operand')
@@ -198,6 +205,16 @@ def run_batch(ctx, case):
     # str <-> F2
     f2 = nq.gate.pauli_str_to_F2(arr_s, signs)
     ctx.require(f2.shape == f2_ref.shape and np.array_equal(f2, f2_ref), 'batch str_to_F2')
+    # signs that broadcast against the batch of strings: one phase for all, one per column (l,), one per row (k,1)
+    if len(shape) == 2:
+        k_, l_ = shape
+        for kind_, sg in (('scalar', np.array(ref.PHASE[ks[0]])), ('per column', np.array([ref.PHASE[ks[j]] for j in range(l_)])), ('per row', np.array([ref.PHASE[ks[(i * l_) % len(ks)]] for i in range(k_)]).reshape(k_, 1))):
+            full = np.broadcast_to(sg, shape)
+            phase_k = lambda z: [kk for kk, vv in ref.PHASE.items() if abs(vv - z) < 1e-12][0]  # noqa: E731
+            want_b = np.array([ref.pauli_to_F2((phase_k(full[i, j]), strs[i * l_ + j])) for i in range(k_) for j in range(l_)], dtype=np.uint8).reshape(shape + (2 * n + 2,))
+            got_b = nq.gate.pauli_str_to_F2(arr_s, sg)
+            ctx.require(got_b.shape == want_b.shape and np.array_equal(got_b, want_b), f'batch str_to_F2 with a broadcast sign array ({kind_})')
+        ctx.label('broadcast signs')
     s2, sg2 = nq.gate.pauli_F2_to_str(f2_ref)
     ctx.require(s2.shape == shape and s2.reshape(-1).tolist() == strs, 'batch F2_to_str string')
     ctx.close(sg2, signs, 1e-12, 'batch F2_to_str sign')
